@@ -403,6 +403,9 @@ func (its *PushPullHandler) evaluatePushPullCase() (pushPullCase, errors.OrdaErr
 		if err != nil {
 			return caseError, errors.PushPullAbortionOfServer.New(its.ctx.L(), "fail to get datatype by duid from DB")
 		}
+		if its.datatypeDoc != nil && its.datatypeDoc.CollectionNum != its.collectionDoc.Num {
+			its.datatypeDoc = nil // a datatype of another collection is not visible to this client
+		}
 		if its.datatypeDoc == nil {
 			return caseMatchNothing, nil
 		}
